@@ -242,6 +242,46 @@ class Ctx:
         self.rep.count('result_producing_calls:' + key, n)
         return not bad
 
+    # ------------------------------------------------------------------ K15 tolerated failures
+    def tolerated_failures(self, rule, key, crates, what):
+        """The places where a failing call is *tolerated* - the caller can still return success after the callee returned Err: an
+        `Err` arm that reaches an Ok return, `unwrap_or*`, `.ok()`, `.is_ok()/.is_err()` - are exactly the frozen inventory
+        (tables/tolerated_failures.json, 51 sites on the pinned tree, each reviewed: cron / reward / reporter-reward sends, EVM
+        CALL semantics, per-deal batch results ...).  A `?` turned into `if let Err(e) = .. { log }` adds a site and is reported.
+        Sites are compared per (crate, callee) by count, so moving code between functions of a crate changes nothing."""
+        rows = tolerated_sites(self.prog, crates)
+        if os.environ.get('BA_FREEZE_ENTRY_SETS') == '1':
+            fresh = {}
+            for (f, c, how) in rows:
+                fresh.setdefault(f.crate, {}).setdefault(_callee_key(c), []).append('%s (%s)' % (f.id.split('::', 1)[-1], how))
+            for cr, d in fresh.items():
+                FREEZE_TOL[cr] = d
+        try:
+            frozen = json.load(open(os.path.join(os.path.dirname(ENTRY_TABLE), 'tolerated_failures.json')))['crates']
+        except Exception:
+            frozen = None
+        if frozen is None:
+            self.rep.ob(rule, key, False, 'tables/tolerated_failures.json missing (fail closed)')
+            return False
+        now = {}
+        for (f, c, how) in rows:
+            now.setdefault((f.crate, _callee_key(c)), []).append((f, c, how))
+        ok = True
+        for (crate, ck), sites in sorted(now.items()):
+            allowed = frozen.get(crate, {}).get(ck, [])
+            if len(sites) > len(allowed):
+                ok = False
+                known_fns_ = {a.split(' (')[0] for a in allowed}
+                new = [x for x in sites if x[0].id.split('::', 1)[-1] not in known_fns_] or sites
+                f, c, how = new[0]
+                self.rep.ob(rule, '%s:%s@%s' % (key, f.id.split('::', 1)[-1], ck.split('::')[-1]), False,
+                            '%s: a failure of %s is now tolerated here (%s) - the caller can succeed after it; the reviewed inventory has %d such site(s) for this callee in %s, the code has %d' % (
+                                what, ck, how, len(allowed), crate, len(sites)), c.where)
+        if ok:
+            self.rep.ob(rule, key, True, '%s: %d tolerated-failure sites, all in the reviewed inventory' % (what, len(rows)))
+        self.rep.count('tolerated_failure_sites:' + key, len(rows))
+        return ok
+
     # ------------------------------------------------------------------ K12 accumulators
     AMOUNT_TYPES = ('fvm_shared::econ::TokenAmount', 'num_bigint::bigint::BigInt', 'partition_state::PowerPair', 'fil_actor_miner::partition_state::PowerPair')
 
@@ -1005,6 +1045,80 @@ def _bool_result_blocks(h, value):
         if t[0] == 'call' and t[3][0] == 0 and not t[3][1]:
             out.append(bi)
     return out
+
+
+FREEZE_TOL = {}
+
+
+def _callee_key(c):
+    n = c.callee or c.defp or '?'
+    n = re.sub(r'<[^<>]*>', '', n)
+    n = re.sub(r'<[^<>]*>', '', n)
+    return '::'.join(n.split('::')[-2:])
+
+
+def tolerated_sites(prog, crates):
+    """[(Fn, Call, how)] Result-producing calls whose Err the caller survives"""
+    out = []
+    for f in prog.bodies():
+        if f.crate not in crates or f.kind not in ('fn', 'assocfn', 'closure') or f.exp or NEUTRAL.search(f.id):
+            continue
+        for c in f.calls:
+            if c.exp or c.dst[1]:
+                continue
+            dl = c.dst[0]
+            ty = f.locals[dl][0] if dl < len(f.locals) else ''
+            if not ty.startswith('core::result::Result<'):
+                continue
+            dp = c.defp or ''
+            if dp in ADAPTERS or dp.endswith('::map_err') or dp.endswith('Result::<T, E>::map') or dp.startswith('core::result::Result'):
+                continue        # the adaptor chain is attributed to the call that produced the Result
+            how = _tolerated(f, c)
+            if how:
+                out.append((f, c, how))
+    return out
+
+
+def _tolerated(f, c):
+    seen = set()
+    work = [c.dst[0]]
+    while work:
+        x = work.pop()
+        if x in seen:
+            continue
+        seen.add(x)
+        for bi, b in enumerate(f.blocks):
+            if b.get('cleanup'):
+                continue
+            for st in b['s']:
+                if st[0] != '=':
+                    continue
+                rv = st[2]
+                if rv[0] == 'use' and rv[1][0] in ('m', 'c') and rv[1][1][0] == x and not rv[1][1][1] and not st[1][1]:
+                    work.append(st[1][0])
+                elif rv[0] == 'ref' and rv[2][0] == x and not rv[2][1]:
+                    work.append(st[1][0])
+                elif rv[0] == 'discr' and rv[1][0] == x and not rv[1][1]:
+                    dl = st[1][0]
+                    for b2 in f.blocks:
+                        t = b2['t']
+                        if t[0] == 'switch' and t[1][0] in ('m', 'c') and t[1][1][0] == dl:
+                            arms = {v: tb for v, tb in t[2]}
+                            err_t = arms.get(1, t[3] if 0 in arms else None)
+                            if err_t is None:
+                                continue
+                            if not f.returns_result():
+                                return 'Err arm of a match in a function that cannot fail'
+                            if f.ok_returns_from([err_t]):
+                                return 'the Err arm reaches an Ok return'
+            t = b['t']
+            if t[0] == 'call' and any(_mentions(a, x) for a in t[2]):
+                name = (t[1].get('res') or t[1].get('def') or '')
+                if name.startswith('core::result::Result') and name.endswith(('::unwrap_or', '::unwrap_or_default', '::unwrap_or_else', '::ok', '::is_ok', '::is_err', '::err')):
+                    return '.' + name.split('::')[-1] + '()'
+                if name in ADAPTERS or name.endswith('::map_err') or name.endswith('Result::<T, E>::map') or name.endswith('Result::<T, E>::and_then'):
+                    work.append(t[3][0])
+    return None
 
 
 def _uses_of(f, l):
